@@ -85,6 +85,9 @@ func SoyFile(name, text string) (node *ast.SoyFileNode, err error) {
 	defer t.recover(&err)
 	t.root = t.itemList(itemEOF)
 	t.checkDepth(t.root)
+	// the scanner has sent its last item; wait until it has closed the channel,
+	// so that it does not outlive the parse it worked for.
+	t.lex.drain()
 	t.lex = nil
 	return &ast.SoyFileNode{
 		Name: t.name,
